@@ -155,9 +155,10 @@ CLAIMED["C05"] = dict(
          "CountAndOrder, PresentIff, PresentFinalizes and Isolation for every issuer configuration and request sequence up to "
          "the bound, plus completion. Every behaviour TLC generates (5 configurations x all sequences of length 1..3, thorough 4, "
          "over 6 request kinds) is executed on the real client / issuer / decoder / finalizers, both directly and with the batch "
-         "request marshalled and re-decoded, and TLC validates the recorded slots against the model. TLAPS (BatchProofs) proves count/order, slot isolation and present-iff-servable for batches of any length.",
+         "request marshalled and re-decoded, and TLC validates the recorded slots against the model. TLAPS (BatchProofs) proves count/order, slot isolation and present-iff-servable for batches of any length."
+         + " Verdicts.tla (a long-lived verifier with a memo in front of its check; VerdictIsFunction holds for the intended design - TLAPS: for histories of any length - and fails for three named deviations) generates EVERY history of 3 (thorough 4) presentations over the kind's classes (batchissuer); each is replayed on one generic batch issuer object, each class one concrete value per history, and TLC validates every recorded verdict against the specification's decision.",
     note="Failing issuers of a matching type and id are stubs of the Issuer interface; token validity as in C01.",
-    technique="TLA+ spec + TLC model checking + TLC-generated behaviours replayed on the real batch pipeline + TLC trace validation",
+    technique="TLA+ spec + TLC model checking + TLC-generated behaviours replayed on the real batch pipeline + TLC trace validation + TLC-generated histories of presentations (Verdicts.tla) replayed on a long-lived object",
     ref="5/C05")
 
 CLAIMED["C12"] = dict(
